@@ -1000,3 +1000,272 @@ def make_post_group(kind: str, members: tuple[str, ...]) -> Callable[[World, dic
         return None
 
     return post
+
+
+def post_two_signals(w: World, snap: dict[str, Any], info: dict[str, Any]) -> tuple[str, Any] | None:
+    """Two identical persistent signals, a stage that needs two resumes: each signal is consumed
+    exactly once and resumes the stage exactly once."""
+    sent = len(info["injected"])
+    runs = [e for e in w.ledger.entries if e["ref"] == "w"]
+    wst = snap["stages"]["w"]["status"]
+    left = snap["stages"]["w"]["context"].get("_buffered_signals") or []
+    detail = {"signals_sent": sent, "runs_of_suspending_task": len(runs), "stage": wst, "workflow": snap["workflow"], "still_buffered": len(left)}
+    if sent == 2:
+        if len(runs) != 3 or wst != "SUCCEEDED" or snap["workflow"] != "SUCCEEDED" or left:
+            return ("two_signals/resumes=%d/%s" % (len(runs) - 1, wst), detail)
+    elif sent == 1:
+        if len(runs) != 2 or wst != "SUSPENDED" or left:
+            return ("one_of_two_signals/resumes=%d/%s" % (len(runs) - 1, wst), detail)
+    return None
+
+
+# ----------------------------------------------------------------------------------------------- C12 replay
+def _event_rows(w: World) -> list[dict[str, Any]]:
+    return [dict(r) for r in w.q("SELECT sequence, event_type, entity_type, entity_id, workflow_id, data FROM events ORDER BY sequence")]
+
+
+def _jump_marked(w: World) -> set[str]:
+    """ids of stages/tasks whose status was force-written while a JumpToStage was handled."""
+    return {r["id"] for r in w.audit() if (r["ctx"] or "") in REARM_CTX and r["tbl"] in ("stage", "task")}
+
+
+def make_post_replay(q_sym: Any, p_sym: Any) -> Callable[[World, dict[str, Any], Any], tuple[str, Any] | None]:
+    def post(w: World, snap: dict[str, Any], info: dict[str, Any]) -> tuple[str, Any] | None:
+        from stabilize.events.replay import EventReplayer, WorkflowState
+        from stabilize.events.snapshots import SnapshotStore
+
+        es = w.event_store
+        wid = w.workflow_id
+        rep = EventReplayer(es)
+        full = rep.rebuild_workflow_state(wid)
+        marked = _jump_marked(w)
+        # (1) replay == store on every entity that went through the regular lifecycle steps
+        if full["status"] != snap["workflow"] and not (full["status"] in (None, "RUNNING") and snap["workflow"] in ("RUNNING", "NOT_STARTED")):
+            return ("replay/workflow_status_differs/%s_vs_%s" % (full["status"], snap["workflow"]), {"replayed": full["status"], "stored": snap["workflow"]})
+        durable_stage = {v["id"]: v["status"] for v in snap["stages"].values()}
+        for sid, st in full["stages"].items():
+            if sid in marked or sid not in durable_stage:
+                continue
+            if st.get("status") != durable_stage[sid]:
+                ref = next((r for r, i in w.refs.items() if i == sid), sid)
+                return ("replay/stage_status_differs/%s/%s_vs_%s" % (ref, st.get("status"), durable_stage[sid]), {"stage": ref, "replayed": st.get("status"), "stored": durable_stage[sid]})
+        for sid, dst in durable_stage.items():
+            if sid in marked or dst in ("NOT_STARTED",):
+                continue
+            if sid not in full["stages"]:
+                ref = next((r for r, i in w.refs.items() if i == sid), sid)
+                return ("replay/stage_missing_from_log/%s=%s" % (ref, dst), {"stage": ref, "stored": dst})
+        for trow in w.q("SELECT id, status FROM task_executions"):
+            tid, tst = trow["id"], trow["status"]
+            if tid in marked or tst in ("NOT_STARTED", "SKIPPED", "CANCELED", "REDIRECT"):
+                continue  # skipped/canceled/redirect tasks are not part of the regular task events
+            rt = full["tasks"].get(tid, {}).get("status")
+            if rt != tst:
+                return ("replay/task_status_differs/%s_vs_%s" % (rt, tst), {"task": tid, "replayed": rt, "stored": tst})
+        # (2) time travel: as_of q == folding exactly the events with sequence <= q
+        rows = _event_rows(w)
+        seqs = [r["sequence"] for r in rows if r["workflow_id"] == wid]
+        n = len(seqs)
+        qi = 0
+        for k in range(1, n + 1):
+            if hx.decide_eq(q_sym, k):
+                qi = k
+                break
+        q = seqs[qi - 1] if qi else 0
+        got = rep.rebuild_workflow_state(wid, as_of_sequence=q)
+        ref_state = WorkflowState(workflow_id=wid)
+        for ev in es.get_events_for_workflow(wid, 0):
+            if ev.sequence <= q:
+                rep._apply_event(ref_state, ev)
+        want = ref_state.to_dict()
+        for fld in ("status", "stages", "tasks", "context"):
+            if got[fld] != want[fld]:
+                return ("replay/as_of_prefix_differs/%s" % fld, {"as_of": q, "events": n})
+        # also: the prefix state must not know anything that happened later
+        later = {r["entity_id"] for r in rows if r["sequence"] > q} - {r["entity_id"] for r in rows if r["sequence"] <= q}
+        if later & (set(got["stages"]) | set(got["tasks"])):
+            return ("replay/as_of_leaks_future_events", {"as_of": q})
+        # (3) snapshot at p + tail == full replay
+        pi = 0
+        for k in range(1, n + 1):
+            if hx.decide_eq(p_sym, k):
+                pi = k
+                break
+        p = seqs[pi - 1] if pi else 0
+        if p:
+            at_p = rep.rebuild_workflow_state(wid, as_of_sequence=p)
+            ss = SnapshotStore(es)
+            ss.create_workflow_snapshot({k: at_p[k] for k in ("status", "application", "name", "context", "stages", "tasks")}, wid, version=1, sequence=p)
+            with_snap = EventReplayer(es, ss).rebuild_workflow_state(wid)
+            for fld in ("status", "stages", "tasks", "context"):
+                if with_snap[fld] != full[fld]:
+                    return ("replay/snapshot_plus_tail_differs/%s" % fld, {"snapshot_at": p, "events": n})
+        return None
+
+    return post
+
+
+def replay_run(workload: str, choices: list[Any], q_sym: Any, p_sym: Any, inject_at: Any = None, inject: Callable[[World], None] | None = None) -> bool:
+    return schedule_run("C12", workload, choices, compare="none", events=True, post=make_post_replay(q_sym, p_sym), inject_at=inject_at, inject=inject)
+
+
+# ----------------------------------------------------------------------------------------------- C13 events + state
+COMPLETION_EVENTS = {"stage.completed", "stage.failed", "task.completed", "task.failed"}
+
+
+def check_event_state_consistency(w: World, when: str) -> tuple[str, Any] | None:
+    """No completion/failure event for an entity whose completion is not durable; no entity completed
+    by the regular task/stage completion step without its event; bus notifications only for durable
+    events; sequence numbers unique and increasing."""
+    rows = _event_rows(w)
+    seqs = [r["sequence"] for r in rows]
+    if seqs != sorted(set(seqs)):
+        return ("events/sequence_not_unique_increasing/%s" % when, {"sequences": seqs[-6:]})
+    stage_status = {r["id"]: r["status"] for r in w.q("SELECT id, status FROM stage_executions")}
+    task_status = {r["id"]: r["status"] for r in w.q("SELECT id, status FROM task_executions")}
+    marked = _jump_marked(w)
+    last_completion: dict[str, str] = {}
+    for r in rows:
+        if r["event_type"] in COMPLETION_EVENTS:
+            try:
+                st = json.loads(r["data"]).get("status")
+            except Exception:
+                st = None
+            last_completion[r["entity_id"]] = st or "?"
+    rearmed = {r["id"] for r in w.audit() if r["new"] == "NOT_STARTED"}
+    for eid, st in last_completion.items():
+        cur = stage_status.get(eid, task_status.get(eid))
+        if cur is None or eid in rearmed:
+            continue
+        if cur not in COMPLETE:
+            return ("events/completion_event_without_durable_completion/%s" % when, {"entity": eid, "event_status": st, "durable": cur})
+    # completed by the regular steps (CompleteTask / CompleteStage handlers) => event present
+    for row in w.audit():
+        if row["tbl"] in ("stage", "task") and row["new"] in COMPLETE and (row["ctx"] or "") in ("CompleteTask", "CompleteStage"):
+            if row["new"] in ("SKIPPED",) and row["tbl"] == "task":
+                continue
+            if row["id"] in marked:
+                continue
+            if row["id"] not in last_completion:
+                return ("events/durable_completion_without_event/%s/%s" % (row["tbl"], when), {"entity": row["id"], "status": row["new"], "by": row["ctx"]})
+    durable_ids = {r["sequence"] for r in rows}
+    for ev in w.bus_log:
+        if getattr(ev, "sequence", None) not in durable_ids:
+            return ("events/subscriber_notified_of_non_durable_event/%s" % when, {"event": str(getattr(ev, "event_type", ev)), "sequence": getattr(ev, "sequence", None)})
+    return None
+
+
+def event_crash_run(workload: str, k1: Any) -> bool:
+    """C13: crash at every commit with the event store in the same database; consistency is checked
+    on the crash state itself (after the restart, before recovery) and again after recovery."""
+    with hx.Path("event_crash:" + workload) as P:
+        with hx.native():
+            w = World(events=True)
+            try:
+                w.submit(WORKLOADS[workload]())
+                base = HOOKS.commits
+                site: list[str] = []
+
+                def hook(conn: Any) -> None:
+                    n = HOOKS.commits - base
+                    if hx.decide_eq(k1, n):
+                        site.append(commit_site())
+                        HOOKS.dead = True
+                        raise Crash()
+
+                HOOKS.on_commit = hook
+                crashed = False
+                try:
+                    w.drain()
+                except Crash:
+                    crashed = True
+                HOOKS.on_commit = None
+                if crashed:
+                    w.restart()
+                    P.reached("%s@%s" % (workload, site), {"workload": workload, "site": site})
+                    bad = check_event_state_consistency(w, "crash_state")
+                    if bad is not None:
+                        return P.fail("C13/%s@%s" % (bad[0], site[0]), {"workload": workload, **bad[1]})
+                    w.processor.run_recovery()
+                    w.drain()
+                else:
+                    P.reached("no_crash")
+                bad = check_event_state_consistency(w, "final")
+                if bad is not None:
+                    return P.fail("C13/%s@%s" % (bad[0], site[0] if site else "none"), {"workload": workload, **bad[1]})
+                return True
+            finally:
+                w.close()
+
+
+def event_fault_run(workload: str, step_sym: Any, kind_sym: Any) -> bool:
+    """C13: an injected failure inside a handler transaction (exception after the event append /
+    optimistic-lock conflict) at delivery step `step`: the rolled-back transaction leaves no event
+    and notifies nobody; the retried delivery then records it exactly once."""
+    import stabilize.persistence.sqlite.transaction as txmod
+    from stabilize.errors import ConcurrencyError
+
+    with hx.Path("event_fault:" + workload) as P:
+        with hx.native():
+            w = World(events=True)
+            orig_mark = txmod.AtomicTransaction.mark_message_processed
+            try:
+                w.submit(WORKLOADS[workload]())
+                kind = hx.pick(kind_sym, 2)
+                step = 0
+                armed = {"on": False, "fired": 0}
+
+                def faulty(self: Any, *a: Any, **k: Any) -> None:
+                    if armed["on"] and not armed["fired"]:
+                        armed["fired"] = 1
+                        ev_before = len(_event_rows(w))
+                        armed["events_in_txn"] = ev_before
+                        if kind == 0:
+                            raise RuntimeError("injected failure after the event append")
+                        raise ConcurrencyError("injected optimistic-lock conflict")
+                    return orig_mark(self, *a, **k)
+
+                txmod.AtomicTransaction.mark_message_processed = faulty  # type: ignore[method-assign]
+                before_events = None
+                while step < 300:
+                    if not w.make_visible():
+                        break
+                    if not armed["fired"] and hx.decide_eq(step_sym, step):
+                        armed["on"] = True
+                        before_events = sum(1 for r in _event_rows(w) if r["event_type"] in COMPLETION_EVENTS)
+                        bus_before = sum(1 for ev in w.bus_log if getattr(getattr(ev, "event_type", None), "value", "") in COMPLETION_EVENTS)
+                    w.step_fifo()
+                    if armed["on"] and not armed["fired"]:
+                        armed["on"] = False  # the handler of this step has no processed-mark inside its transaction: no fault here
+                        armed["fired"] = 3
+                    if armed["on"] and armed["fired"] == 1:
+                        armed["on"] = False
+                        armed["fired"] = 2
+                        P.reached("fault@%d kind=%d" % (step, kind), {"workload": workload, "step": step, "kind": ["exception", "concurrency"][kind]})
+                        if kind == 0:
+                            # the failed delivery rolled back: nothing of it is durable, nobody was told
+                            # (only the stage/task completion events are recorded inside the transaction;
+                            #  started / skipped / canceled / workflow events are recorded outside by design)
+                            now_events = sum(1 for r in _event_rows(w) if r["event_type"] in COMPLETION_EVENTS)
+                            if now_events != before_events:
+                                return P.fail("C13/events/event_of_rolled_back_transaction_is_durable", {"workload": workload, "step": step, "before": before_events, "after": now_events})
+                            if sum(1 for ev in w.bus_log if getattr(getattr(ev, "event_type", None), "value", "") in COMPLETION_EVENTS) != bus_before:
+                                return P.fail("C13/events/subscriber_notified_before_commit", {"workload": workload, "step": step})
+                        bad = check_event_state_consistency(w, "after_fault")
+                        if bad is not None:
+                            return P.fail("C13/%s" % bad[0], {"workload": workload, "step": step, **bad[1]})
+                    step += 1
+                bad = check_event_state_consistency(w, "final")
+                if bad is not None:
+                    return P.fail("C13/%s" % bad[0], {"workload": workload, **bad[1]})
+                # every completion event exactly once per completion
+                rows = _event_rows(w)
+                seen: Counter = Counter((r["entity_id"], r["event_type"]) for r in rows if r["event_type"] in COMPLETION_EVENTS)
+                rearms = Counter(r["id"] for r in w.audit() if r["new"] == "NOT_STARTED")
+                for (eid, et), n in seen.items():
+                    if n > 1 + rearms.get(eid, 0):
+                        return P.fail("C13/events/duplicate_completion_event", {"workload": workload, "entity": eid, "event": et, "count": n})
+                return True
+            finally:
+                txmod.AtomicTransaction.mark_message_processed = orig_mark  # type: ignore[method-assign]
+                w.close()
